@@ -1,0 +1,8 @@
+//go:build !verif
+
+// Package verifhook provides named event points for the verification harness in /verif.
+// Without the "verif" build tag (every normal build) At is an empty function.
+package verifhook
+
+// At marks a named point of the pipeline. It does nothing in normal builds.
+func At(point string, detail ...string) {}
